@@ -148,6 +148,7 @@ type Sim struct {
 	Viol      *Violation
 	names     map[string]int
 	Steps     int
+	Draining  bool // set by scenarios once fault injection has stopped
 	stepHook  func()
 }
 
@@ -347,14 +348,25 @@ func (s *Sim) pair(name, from, to string, auto bool) (*End, *End) {
 // Connect opens a connection from a scheduler-owned client to a listener.  The returned
 // end is owned by the scheduler (a sink); the far end goes to the listener's queue.
 func (s *Sim) Connect(name, from, to string) (*End, error) {
+	return s.connect(name, from, to, false)
+}
+
+// ConnectAuto is Connect over a transparent link: bytes flow eagerly in FIFO order, are not
+// journaled and consume no tape (used for observations such as /metrics whose size depends
+// on process-wide state).
+func (s *Sim) ConnectAuto(name, from, to string) (*End, error) {
+	return s.connect(name, from, to, true)
+}
+
+func (s *Sim) connect(name, from, to string, auto bool) (*End, error) {
 	l, ok := s.listeners[to]
 	if !ok || l.closed {
 		s.J.Add(s, "connect", "%s %s->%s refused", name, from, to)
 		return nil, errRefused
 	}
-	a, b := s.pair(name, from, to, false)
+	a, b := s.pair(name, from, to, auto)
 	a.Owned = true
-	b.Stream = l.Stream
+	b.Stream = l.Stream && !auto
 	s.J.Add(s, "connect", "%s %s->%s", name, from, to)
 	s.deliverToListener(l, b)
 	return a, nil
@@ -385,10 +397,11 @@ func (e *End) Send(b []byte) {
 	e.Peer.inflight = append(e.Peer.inflight, seg{cp})
 	e.BytesOut += len(b)
 	e.WritesOut++
-	s.J.AddData(s, "send", e.Name, cp)
-	if e.Peer.Auto {
+	if e.Auto {
 		s.autoProgress()
+		return
 	}
+	s.J.AddData(s, "send", e.Name, cp)
 }
 
 // Shut closes an owned end gracefully (FIN after in-flight data).
@@ -398,8 +411,13 @@ func (e *End) Shut() {
 	}
 	e.Closed = true
 	e.Peer.finPending = true
-	e.s.J.Add(e.s, "shut", "%s", e.Name)
+	if !e.Auto {
+		e.s.J.Add(e.s, "shut", "%s", e.Name)
+	}
 	e.s.cancelOps(e, net.ErrClosed)
+	if e.Auto {
+		e.s.autoProgress()
+	}
 }
 
 // Reset aborts the connection from this end: the peer sees ECONNRESET, in-flight data in
@@ -689,6 +707,13 @@ func (s *Sim) autoProgress() {
 				for len(e.inflight) > 0 {
 					b, _ := e.take(1<<30, true)
 					s.sink(e, b)
+					again = true
+				}
+				if (e.finPending || e.rstPending) && !e.EOFSeen {
+					e.EOFSeen = true
+					if e.OnEOF != nil {
+						e.OnEOF(e.rstPending)
+					}
 					again = true
 				}
 			}
